@@ -66,7 +66,7 @@ CLAIMED = {
              'op(seg).point(t) = OP(point(t)) for all values.  Arc: translated/rotated/uniform scaled build the new Arc from the transformed '
              'end points, same (scaled) radii, rotation(+degs), flags, default origin = centre; non-uniform scaled() raises.  Joints: '
              'transform_segments_together on n<=3 (thorough 4) segments, every coincidence pattern incl. the closing joint: end/start terms '
-             'abstracted to uninterpreted arithmetic, z3 (QF_UF) shows previously coinciding joints stay identical for any arithmetic.',
+             'abstracted to uninterpreted arithmetic, z3 (QF_UF) shows previously coinciding joints stay identical for any arithmetic. Arc branch of transform(): executed with a symbolic affine matrix per class (similarity, diagonal, shear, reflection, general), symbolic radii/end points, rotation with rational cos/sin, all flag combinations; inv/det closed forms, eigh by its contract; new radii/rotation = spectral form, matrix handed to eigh pulled back by A = old ellipse form, end points mapped, large_arc kept, sweep flipped iff det < 0 (equalities through z3-checked certificates). Integer-dtype matrices.',
         note='Rotation angle as a unit pair (c,s). Arc geometry itself is C04 (here _parameterize is a stub with a free centre). The Arc branch of transform() is not covered yet (raises TypeError under numpy 2.5 in this environment; see DESIGN). UF-sat answers are confirmed on random doubles in the replay.',
         design='3/C10'),
     'C13': dict(
@@ -82,8 +82,8 @@ CLAIMED = {
              '(np.roots = exact symbolic root finder, degree <= 2), Line.bbox and Path.bbox run on symbolic coordinates.  Per control path '
              'z3 (nlsat) is asked for a t in [0,1] at which the coordinate polynomial leaves [min,max] (containment, decided directly, no '
              'calculus step trusted) and shows min/max are attained at 0, 1 or a critical point in [0,1] (tightness; the roots of B\' '
-             'enter through Vieta hypotheses).  Path.bbox = union of n<=3 symbolic boxes.',
-        note='Arc.bbox not covered yet. math.sqrt mapped to a sqrt atom, min/max in bezier.py to If-terms. Hard per-query limits (forked solver); a timed-out query is reported inconclusive.',
+             'enter through Vieta hypotheses).  Path.bbox = union of n<=3 symbolic boxes. Arc.bbox: the real Arc.bbox/Arc.point run with exact degree arithmetic (pi = the angle of 180 degrees), cos/sin as an uninterpreted function of the degree value, theta/delta/centre symbolic, radii and rotation (rational cos/sin) concrete per family; containment for an arbitrary swept angle and tightness against an amplitude/phase oracle (UF + linear real arithmetic).  Path.bbox after every single in-place edit.',
+        note='math.sqrt mapped to a sqrt atom, min/max in bezier.py to If-terms. Hard per-query limits (forked solver); a timed-out query is reported inconclusive.',
         design='3/C08'),
     'C16': dict(
         text='Every history of k<=2 (thorough 3) mutations over {setitem, slice assignment, insert, append, extend, delitem, pop, reverse, '
@@ -101,7 +101,7 @@ CLAIMED = {
              'counter-clockwise triangle / convex quadrilateral, sign flip under reversed(), invariance under translated(), factor sx*sy '
              'under scaled(), factor det under transform() (identities, all values).  path_encloses_pt runs through Path.intersect / '
              'Line.intersect on a concrete triangle (quick 1, thorough 3 shapes, both orientations) with symbolic query and outside point '
-             'in general position and is compared with the orientation-test oracle.',
+             'in general position and is compared with the orientation-test oracle. is_contained_by as a composition of its parts (crossing test, boxes, enclosure test as stubs with their contracts). Arc x Line closed form (shared with C11).',
         note='poly1d zero-trimming of symbolic leading coefficients disabled in the area families (value-preserving). Arcs (chord approximation), is_contained_by, polygons beyond 4 edges and Bezier boundaries for enclosure are outside. Enclosure queries that z3 does not finish in 60 s are reported inconclusive.',
         design='3/C14'),
     'C07': dict(
@@ -119,7 +119,7 @@ CLAIMED = {
              'is the positive unit multiple of the independently built derivative, normal = -i*tangent, curvature*|B\'|^3 = |x\'y\'\'-y\'x\'\'| '
              '(the sqrt the code takes is captured), Line curvature 0.  Singular end points (P0=P1, P0=P1=P2, mirror cases at t=1, '
              'quadratic P0=P1 / P1=P2): the real ZeroDivisionError route through rational_limit and the complex square root '
-             '(principal-root stub) is executed and the result is compared with the direction of travel with its sign.',
+             '(principal-root stub) is executed and the result is compared with the direction of travel with its sign. Arc.unit_tangent/normal/curvature against the ellipse\'s closed forms in the eccentric angle (certificates).',
         note='Two single-coincidence cubic cases are run with the singular point anchored at the origin in quick (free in thorough). Arc tangent/curvature are consequences of the arc derivative identities (C04). Interior cusps and numpy-scalar inputs outside.',
         design='3/C15'),
     'C11': dict(
@@ -128,7 +128,7 @@ CLAIMED = {
              'to the carrier line; with np.roots stubbed by symbolic roots of it every returned (bez_t,line_t) is in range and a common '
              'point, both call directions (quadratic <=1 root, cubic 0 roots quick; more in thorough).  The control-polygon pre-filters never '
              'reject curves sharing a point.  Subdivision acceptance (box_area < tol) examined as a function.  Path.intersect on stub '
-             'segments: triples coherent (T = t2T(seg,t)), de-duplication only drops near-duplicates.',
+             'segments: triples coherent (T = t2T(seg,t)), de-duplication only drops near-duplicates. First iteration of the real bezier_intersections on symbolic boxes. Arc x Line closed form (candidate points, precondition rotation == 0, assembly), Arc x Bezier pairing, Arc.point_to_t (rotation 0; acos/asin as piecewise-linear folds in degrees; all loops and isclose tests executed) and Line.point_to_t.',
         note='One recorded known finding (acceptance by box area). Arc pairs, subdivision termination and numeric margins outside. Line start anchored at the origin in the quick Line x Bezier families.',
         design='3/C11'),
     'C12': dict(
@@ -136,7 +136,7 @@ CLAIMED = {
              'Quadratic/Cubic x Line: root list containing the true parameter (complete-roots contract) otherwise arbitrary => the pair is '
              'returned exactly once, both call directions.  Control-polygon pre-filters of all 8 Bezier type pairs never reject curves '
              'sharing a point.  boxes_intersect on symbolic boxes (common point => True).  ApproxSolutionSet and Path.intersect '
-             'de-duplication drop only entries within tol.  Pruning boxes contain the curve (degenerate cubic / quadratic routes).',
+             'de-duplication drop only entries within tol.  Pruning boxes contain the curve (degenerate cubic / quadratic routes). All cubic bbox shards. Arc x Line closed form: every common point of ellipse and line is a candidate; Arc.point_to_t / Line.point_to_t answer None only off the arc / segment; Arc x Bezier pairing drops no in-range pair.',
         note='One recorded known finding (boxes_intersect on zero-width overlaps). Arc pairs, subdivision convergence and the redundant-pair removal loop outside. np.roots completeness is a contract.',
         design='3/C12'),
     'C06': dict(
@@ -145,7 +145,7 @@ CLAIMED = {
              'by the harness and ds/dt1 = speed, s(t0,t0)=0 are posed over abstract (c2,c1,c0); collinear fold-back quadratics: numpy '
              'nan semantics modelled by a token, the isnan fallback runs and its piecewise formulas are compared with |a| int |2t-m| dt.  '
              'segment_length (no-scipy recursion) with uninterpreted point(): dyadic partition, result = chord sum, min_depth honoured.  '
-             'Path.length / length(T0,T1) on stub segments (shared with C05).',
+             'Path.length / length(T0,T1) on stub segments (shared with C05). CubicBezier.length / Arc.length dispatch with and without scipy: integrators replaced by an uninterpreted kernel with the arc-length contract; interval, integrand (= |B\'| as an identity), fallback arguments; a returned term that is not the kernel must satisfy s(t0,t0)=0 and ds/dt1 = speed.  The quadratic closed form\'s ds/dt1 = speed is discharged through a z3-checked ideal-membership certificate.',
         note='NOT claimed: that QUADPACK / the chord recursion converge to the true arc length of cubics and arcs (C/Fortran behind a boundary, no closed form), the cusp clause, cancellation for nearly collinear control points. The ds/dt1 = speed query currently comes back unknown from z3 within 120 s and is reported inconclusive (hand-normalised form is unsat in ms; see DESIGN).',
         design='3/C06'),
     'C20': dict(
@@ -172,7 +172,7 @@ CLAIMED = {
              'SaxDocument (9 writer x reader pairs): same number, order and segments for all coordinates of every coincidence pattern '
              '(z3), per-path attributes (incl. a namespace-prefixed one) and svg-level attribute sets (full, width only, height only) '
              'come back unchanged.  Document histories new/loaded x root/group: an added path is returned by paths() before and after '
-             'save/reload.',
+             'save/reload. Attribute names shared between <svg> and <path> with different values; the same path data written twice with different attributes; attributes read back from SaxDocument.tree.',
         note='The solver decides the coordinate/coincidence part (as in C01); the rest is structural comparison on each explored path. One recorded known finding (Document.add_path element is un-namespaced). XML and file-system layers are executed, not modelled.',
         design='3/C18'),
     'C04': dict(
